@@ -48,6 +48,9 @@ CFG = {
         "Leptos.Hydrate.C05_suspend_position_witness_in_order",
         "Leptos.Hydrate.C05_suspend_position_witness_out_of_order",
         "Leptos.Hydrate.C05_suspend_position_agree",
+        "Leptos.Hydrate.compile_spec",
+        "Leptos.Hydrate.compileB_spec",
+        "Leptos.Hydrate.C05_nested_suspend_witness",
         "Leptos.Hydrate.compile_inOrd",
         "Leptos.Hydrate.compile_oooWf",
         "Leptos.Hydrate.compile_doc",
@@ -125,7 +128,10 @@ CFG = {
             "forced Suspend coverage before the random cases: 12 containers (top level, element, Vec, tuple, array, Option, Either, Result, EitherOf3, OwnedView, closure, "
             "Vec inside an element) x sibling before (none / string / element) x sibling after x 7 shapes of the resolved view x pending / ready x every server form; two Suspends "
             "in 7 completion orders x 5 containers x 4 value shapes; keyed lists with suspending items in all 6 completion orders x 3 positions x 3 forms; "
-            "Fragment items that suspend (op `sfrag`); (with SUSPEND_POSITION_CASES = false in the harness, until class suspend-position is listed, inputs whose "
+            "a Suspend inside the value of a Suspend (7 value shapes incl. two inner ones and keyed suspending items) x 3 containers x sibling before x sibling after x 7 completion "
+            "orders (outer before inner, inner before outer, together, either ready at render time, rest) x 3 forms; Fragment items that suspend (op `sfrag`); "
+            "the `each` source of a keyed list: 9 iterator kinds (Vec, array, range-map, filter, from_fn, flat_map, chain, once-chain, Option: exact size hints and "
+            "size hints with lower bound 0) x 0 / 1 / 3 items x 4 positions x element / string items, and 2 keyed lists in 3 of the random cases; (with SUSPEND_POSITION_CASES = false in the harness, until class suspend-position is listed, inputs whose "
             "pending Suspend leaves another Position than the server guesses are skipped); "
             "1 case in 14 is a `frag` op (an element with children pre.., Fragment(items A), post.., rebuilt with items B; 1 in 3 of those with suspending items); 1 in 12 a `mis` op (A hydrated against the DOM of another view: the walk's "
             "error paths). distinct = distinct op line; a case is trivial (`plain`) when it has no tag (no adjacent strings, no empty string, no "
@@ -159,7 +165,8 @@ CFG = {
     "assumptions": [
         "Suspend parts: a Suspend on a base future is carried as `.any (suspTy fid) (.osome v)` (for to_html / hydrate / build / rebuild with its data present it is "
         "Option::Some(v)); the server side is Model/Hydrate.compile (to_html_async_with_buf with the Position threaded) run by C07's stream machine (Model/Stream.lean: "
-        "startStream / Run.poll / applyScripts); futures are oneshot channels the harness completes between polls; a Suspend nested in the value of a *pending* Suspend, "
+        "startStream / Run.poll / applyScripts); futures are oneshot channels the harness completes between polls; a Suspend inside the value of a pending Suspend is covered (Hydrate.compileB: "
+        "continuation style, its readiness decided by the stream machine when the outer future resolves; the harness nests one level); "
         "Suspend inside <Suspense> (C07) and nonces are not covered; the out-of-order theorem assumes C07's string hygiene (cleanOps: no marker / <template / <script text in strings)",
         "Suspend::rebuild runs in a spawned task: the harness runs the tasks to idle (hx_common::sched, FIFO) after each rebuild, the model rebuilds in two phases (syncPart, then the values)",
         "grammar: ordinary containers and void elements of the parser table, nested as the HTML tree builder accepts without implied end tags "
